@@ -12,6 +12,7 @@ import (
 	"reflect"
 	"sort"
 	"strings"
+	"time"
 )
 
 // Perturb describes what is done to a recorded history when it is executed again on another real
@@ -32,16 +33,41 @@ type PerturbStats struct {
 	InfoMismatch                                        []string
 }
 
+// dirListing: names and sizes of all files below dir (to notice a store that changed while being copied)
+func dirListing(dir string) string {
+	var sb strings.Builder
+	_ = filepath.Walk(dir, func(p string, info os.FileInfo, err error) error {
+		if err == nil && !info.IsDir() {
+			fmt.Fprintf(&sb, "%s:%d;", p[len(dir):], info.Size())
+		}
+		return nil
+	})
+	return sb.String()
+}
+
+// copyDir copies a data directory of a node that is idle between two ABCI calls.  goleveldb may still
+// be compacting in the background (files appear and vanish): the copy is repeated until it
+// succeeds and the source listing is the same before and after it.
 func copyDir(src, dst string) error {
-	_ = os.RemoveAll(dst)
-	if err := os.MkdirAll(filepath.Dir(dst), 0o700); err != nil {
-		return err
+	var lastErr error
+	for attempt := 0; attempt < 40; attempt++ {
+		_ = os.RemoveAll(dst)
+		if err := os.MkdirAll(filepath.Dir(dst), 0o700); err != nil {
+			return err
+		}
+		before := dirListing(src)
+		out, err := exec.Command("cp", "-r", src, dst).CombinedOutput()
+		if err == nil && dirListing(src) == before {
+			return nil
+		}
+		if err != nil {
+			lastErr = fmt.Errorf("cp -r: %v: %s", err, out)
+		} else {
+			lastErr = fmt.Errorf("data directory kept changing while it was copied")
+		}
+		time.Sleep(50 * time.Millisecond)
 	}
-	out, err := exec.Command("cp", "-r", src, dst).CombinedOutput()
-	if err != nil {
-		return fmt.Errorf("cp -r: %v: %s", err, out)
-	}
-	return nil
+	return lastErr
 }
 
 var queryPaths = []string{"account", "delegatee", "stakes", "stakes/total_power", "stakes/voting_power", "reward", "proposal", "gov_params"}
